@@ -64,13 +64,16 @@ class Shape:
                 self.B.setdefault(a[0], {"names": [], "fns": []})
                 if isinstance(a[1], (int, float)) and a[1] > 0:
                     self.srs.append(a[1])
+                    self.B[a[0]]["sr"] = a[1]
             elif k == "ENew":
                 self.E[a[0]] = {"chans": {}}
             elif k == "EAddBp":
                 import copy as _copy
                 self.E.setdefault(a[0], {"chans": {}})["chans"][chkey(a[1])] = ("bp", a[1], _copy.deepcopy(self.B.get(a[2])))
             elif k == "EAddArray":
-                self.E.setdefault(a[0], {"chans": {}})["chans"][chkey(a[1])] = ("arr", a[1], None)
+                self.E.setdefault(a[0], {"chans": {}})["chans"][chkey(a[1])] = ("arr", a[1], {"names": [], "fns": [], "sr": a[3] if isinstance(a[3], (int, float)) else None})
+                if isinstance(a[3], (int, float)) and a[3] > 0:
+                    self.srs.append(a[3])
             elif k in ("ECopy", "EFromJson"):
                 import copy as _copy
                 self.E[a[1]] = _copy.deepcopy(self.E.get(a[0], {"chans": {}}))
@@ -113,7 +116,7 @@ class Shape:
         if not ent or ent[0] != "el":
             return None
         ch = ent[1]["chans"].get(chkey(c))
-        if not ch or ch[0] != "bp":
+        if not ch:
             return None
         return ch[2]
 
@@ -156,13 +159,41 @@ def pick_arg(rng, b, name):
 
 
 def some_sr(rng, sh):
-    return rng.choice(sh.srs) if sh.srs else 100
+    """The LARGEST sample rate the program mentions: every time-like value of a follow-up (durations, delays) is a few
+    samples at that rate, so that no object of the program - whatever its own rate - is asked for more than a few
+    thousand samples (a duration of 20 samples at 100 Sa/s is 8e11 samples at 4e12 Sa/s)."""
+    return max(sh.srs) if sh.srs else 100
+
+
+ALL_SRS = []          # every sample rate the current program mentions (set by make); durations stay off rounding ties at all of them
+
+
+def off_ties(d):
+    """True when d*SR is at least 0.2 sample away from a rounding tie for every sample rate of the program (the
+    implementation multiplies in binary64, the model exactly: at a tie the two may round differently - no property
+    quantifies over ties)."""
+    for SR in ALL_SRS:
+        x = Fraction(d) * Fraction(SR)
+        if abs((x - (x.numerator // x.denominator)) - Fraction(1, 2)) < Fraction(1, 5):
+            return False
+        if abs(x - 1) < Fraction(1, 5):
+            return False          # the sub-sample test of changeDuration (dur < 1/SR) is a float comparison at exactly one sample
+    return True
 
 
 def dur_value(rng, SR):
-    n = rng.choice([2, 3, 5, 8, 13, 21])
-    f = rng.choice([0, 0, 0.25])
-    return float((Fraction(n) + Fraction(f)) / Fraction(SR))
+    for _ in range(30):
+        n = rng.choice([2, 3, 5, 8, 13, 21])
+        f = rng.choice([0, 0, 0.25])
+        d = float((Fraction(n) + Fraction(f)) / Fraction(SR))
+        if off_ties(d):
+            return d
+    return float(Fraction(4) / Fraction(SR))
+
+
+def own_sr(b, default):
+    """The blueprint's own sample rate when the program set one."""
+    return (b or {}).get("sr") or default
 
 
 def bad_element(rng, sh, chans, SR):
@@ -174,7 +205,7 @@ def bad_element(rng, sh, chans, SR):
         chans = chans + [99]
     for i, c in enumerate(chans):
         b = sh.fresh("B")
-        n = 6 + 3 * i
+        n = 6 + 4 * i
         ops += [("BNew", b), ("BInsert", b, -1, "ramp", [0, 0.125], float(Fraction(n) / Fraction(SR)), "z"), ("BSetSR", b, SR),
                 ("EAddBp", e, c, b)]
     return e, ops
@@ -202,25 +233,109 @@ def partial_everywhere(rng, sh, SR, in_sequence):
     return ops, [("OSForge", q, True, True, False), ("OSDescr", q), ("OSEq", q, qc), ("OSAwg", q, ("slice", None, None, None))]
 
 
-def tail(rng, sh, extra_obs):
-    """A few further API calls on what the program has built (observations worth adding go to extra_obs)."""
+def valid_handle_edit(rng, sh):
+    """An argument edit through seq.element(pos) that the library accepts (segment and argument exist), or None."""
+    cands = []
+    for s, v in sh.S.items():
+        for pos, ent in v["pos"].items():
+            if ent[0] != "el":
+                continue
+            for ch in ent[1]["chans"].values():
+                if ch[0] != "bp" or not ch[2]:
+                    continue
+                for nm, fn in zip(unique_names(ch[2]["names"]), ch[2]["fns"]):
+                    for arg in ARGS.get(fn, []):
+                        if fn in ("ramp", "ua", "ub2", "uc") or arg in ("ampl", "off", "offset"):
+                            cands.append((s, pos, ch[1], nm, arg))
+    if not cands:
+        return None
+    s, pos, c, nm, arg = rng.choice(cands)
+    return ("SElemChangeArg", s, pos, c, nm, arg if rng.random() < 0.7 else ARGS_INDEX.get(arg, arg), rng.choice(SMALL[1:]), False)
+
+
+ARGS_INDEX = {"start": 0, "stop": 1, "x": 0, "a": 0, "b": 1, "p": 0, "q": 1}
+
+
+SEQ_KINDS = ["valid_handle", "handle_arg", "handle_dur", "bad_add", "bad_sub", "set_absent", "bad_filter", "sequencing", "rate",
+             "amp", "delay", "partial_seq", "copy_seq", "failed_export", "failed_forge", "seq_add", "set_filter",
+             "tool_repeat", "handle_addbp", "handle_flags", "handle_bad_array"]
+EL_KINDS = ["el_arg", "el_dur", "el_overwrite", "partial_el", "copy_el", "wrap_seq", "tool_linear", "el_bad_array"]
+BP_KINDS = ["bp_arg", "bp_dur", "bp_insert", "bp_remove", "bp_burst", "bp_move_edit"]
+ALL_KINDS = SEQ_KINDS + EL_KINDS + BP_KINDS
+
+
+def tail(rng, sh, extra_obs, first=False, force=None):
+    """A few further API calls on what the program has built (observations worth adding go to extra_obs).  `force`:
+    the kind of the first call (the caller cycles through ALL_KINDS so that every run contains every kind); returns
+    None when the program has nothing that kind applies to."""
     ops = []
+    if force == "valid_handle" or (force is None and first and rng.random() < 0.5):
+        # the commonest stateful pattern: observe / export, edit one argument through the live element handle, observe again
+        op = valid_handle_edit(rng, sh)
+        if op:
+            ops.append(op)
+            s = op[1]
+            extra_obs += [("OSDescr", s), ("OSForge", s, True, True, False)]
+            if rng.random() < 0.7:
+                return ops
+        elif force == "valid_handle":
+            return None
+        force = None
     seqs = [s for s, v in sh.S.items() if v["pos"]]
     els = [e for e, v in sh.E.items() if v["chans"]]
     bps = [b for b, v in sh.B.items() if v["names"]]
-    for _ in range(rng.randint(1, 3)):
+    for _i in range(rng.randint(1, 3)):
         kinds = []
         if seqs:
-            kinds += ["handle_arg", "handle_arg", "handle_dur", "bad_add", "bad_add", "bad_sub", "set_absent", "bad_filter",
-                      "sequencing", "rate", "amp", "delay", "partial_seq", "copy_seq", "failed_export", "failed_export", "failed_forge"]
+            kinds += [x for x in SEQ_KINDS if x != "valid_handle"]
         if els:
-            kinds += ["el_arg", "el_dur", "el_overwrite", "partial_el", "copy_el"]
+            kinds += EL_KINDS
         if bps:
-            kinds += ["bp_arg", "bp_dur", "bp_insert", "bp_remove", "bp_burst", "bp_burst"]
+            kinds += BP_KINDS
         if not kinds:
-            return ops
-        k = rng.choice(kinds)
-        if k in ("partial_el", "partial_seq"):
+            return ops or None
+        if force is not None:
+            if force not in kinds:
+                return None
+            k, force = force, None
+        else:
+            k = rng.choice(kinds)
+        if k == "bp_move_edit":
+            # a segment moved (removed and re-inserted elsewhere, so the segment count is what it was) between two
+            # name-addressed edits: anything remembered about positions by name or by count is stale afterwards
+            r = rng.choice(bps)
+            b = sh.B[r]
+            names = unique_names(b["names"])
+            SR = own_sr(b, some_sr(rng, sh))
+            if len(names) >= 2 and len(b.get("durs", [])) == len(names):
+                i = rng.randrange(len(names))
+                j = rng.choice([x for x in range(len(names)) if x != i])
+
+                def edit(nm):
+                    kk = rng.choice(["mark", "mark", "arg", "dur", "unmark"])
+                    if kk == "mark":
+                        return ("BSetSegMarker", r, nm, [rng.choice([0, dur_value(rng, SR)]), dur_value(rng, SR)], rng.choice([1, 2]))
+                    if kk == "unmark":
+                        return ("BRemoveSegMarker", r, nm, rng.choice([1, 2]))
+                    if kk == "arg":
+                        return ("BChangeArg", r, nm, pick_arg(rng, b, nm), rng.choice(SMALL), False)
+                    return ("BChangeDur", r, nm, dur_value(rng, SR), False)
+                seq_ops = [edit(names[i]), edit(names[j]), ("BRemove", r, names[i])]
+                fn = b["fns"][i]
+                args = {"ramp": [0.125, 0], "sine": [1, 0.125, 0, 0], "ua": [0.25], "ub2": [0.125, 0], "uc": [0.125, 0, 0, 0],
+                        "gaussian": [0.125, 1, 0, 0], "gaussian_smooth_cutoff": [0.125, 1, 0, 0], "waituntil": [1]}.get(fn, [0, 0])
+                for op in seq_ops:
+                    ops.append(op)
+                    sh.apply(op)
+                at = rng.choice([0, len(names) - 1, -1])
+                ins = ("BInsert", r, at, fn if fn in ARGS and fn != "waituntil" else "ramp",
+                       args if fn in ARGS and fn != "waituntil" else [0.125, 0], dur_value(rng, SR), b["names"][0] if rng.random() < 0.3 else names[i].rstrip("0123456789") or "q")
+                ops.append(ins)
+                sh.apply(ins)
+                for nm in rng.sample(unique_names(sh.B[r]["names"]), min(2, len(sh.B[r]["names"]))):
+                    ops.append(edit(nm))
+                extra_obs += [("OBDescr", r), ("OBForge", r)]
+        elif k in ("partial_el", "partial_seq"):
             o, ob = partial_everywhere(rng, sh, some_sr(rng, sh), k == "partial_seq")
             ops += o
             extra_obs += ob
@@ -235,10 +350,41 @@ def tail(rng, sh, extra_obs):
                 cp = sh.fresh("S")
                 ops.append(("SCopy", q, cp))
                 extra_obs += [("OSEq", q, cp), ("OSDescr", cp)]
+        elif k == "wrap_seq":
+            # a sequence around an existing element (channel settings, possibly a delay and a filter compensation), observed;
+            # later rounds can edit the stored element through its handle
+            e = rng.choice(els)
+            q = sh.fresh("S")
+            SR = some_sr(rng, sh)
+            for v in sh.E[e]["chans"].values():
+                if v[0] == "bp" and (v[2] or {}).get("sr"):
+                    SR = v[2]["sr"]          # the element's own rate: delays of whole samples
+            chs = [v[1] for v in sh.E[e]["chans"].values()]
+            ops += [("SNew", q), ("SSetSR", q, SR), ("SAddElement", q, 1, e)]
+            for c in chs:
+                ops += [("SSetAmp", q, c, 4), ("SSetOff", q, c, 0)]
+                if rng.random() < 0.5:
+                    ops.append(("SSetDelay", q, c, float(Fraction(rng.choice([2, 3, 8])) / Fraction(SR))))
+                if rng.random() < 0.3:
+                    ops.append(("SSetFilter", q, c, rng.choice(["HP", "LP"]), 1, SR * 0.2, None))
+            for op in ops[-(3 + 4 * len(chs)):]:
+                if op[0] in ("SNew", "SSetSR", "SAddElement", "SSetAmp"):
+                    sh.apply(op)
+            ops.append(("OSForge", q, True, True, False))
+            extra_obs += [("OSForge", q, True, True, False), ("OSDescr", q), ("OSCheck", q)]
+            seqs.append(q)
+        elif k == "tool_linear":
+            e = rng.choice(els)
+            ch = rng.choice(list(sh.E[e]["chans"].values()))
+            b = ch[2] if ch[0] == "bp" else None
+            nm = pick_name(rng, b)
+            q = sh.fresh("S")
+            ops += [("OESR", e), ("TLinear", e, ch[1], nm, pick_arg(rng, b, nm), 0, 0.25, 0.125, q)]
+            extra_obs += [("OSSR", q), ("OSDescr", q), ("OSCheck", q)]
         elif k == "bp_burst":
             r = rng.choice(bps)
             b = sh.B[r]
-            SR = some_sr(rng, sh)
+            SR = own_sr(b, some_sr(rng, sh))
             for _j in range(rng.randint(3, 6)):
                 nm = pick_name(rng, b)
                 kk = rng.choice(["mark", "mark", "unmark", "remove", "insert", "insert", "arg", "dur"])
@@ -260,7 +406,8 @@ def tail(rng, sh, extra_obs):
                 ops.append(op)
                 Shape.apply(sh, op)
             extra_obs += [("OBDescr", r), ("OBForge", r)]
-        elif k in ("handle_arg", "handle_dur", "bad_add", "bad_sub", "set_absent", "bad_filter", "sequencing", "rate", "amp", "delay", "failed_export", "failed_forge"):
+        elif k in ("handle_arg", "handle_dur", "bad_add", "bad_sub", "set_absent", "bad_filter", "sequencing", "rate", "amp", "delay", "failed_export", "failed_forge", "seq_add", "set_filter",
+                   "tool_repeat", "handle_addbp", "handle_flags", "handle_bad_array"):
             s = rng.choice(seqs)
             poss = list(sh.S[s]["pos"])
             pos = rng.choice(poss)
@@ -268,13 +415,13 @@ def tail(rng, sh, extra_obs):
             chans = [v[1] for v in ent[1]["chans"].values()] if ent[0] == "el" else []
             c = rng.choice(chans) if chans else 1
             b = sh.bp_of(s, pos, c)
-            SR = some_sr(rng, sh)
+            SR = own_sr(b, some_sr(rng, sh))          # the rate of the addressed entry: delays / durations of whole samples there
             if k == "handle_arg":
                 nm = pick_name(rng, b)
                 ops.append(("SElemChangeArg", s, pos, c, nm, pick_arg(rng, b, nm), rng.choice(SMALL), rng.random() < 0.35))
             elif k == "handle_dur":
                 nm = pick_name(rng, b)
-                ops.append(("SElemChangeDur", s, pos, c, nm, rng.choice([dur_value(rng, SR)] * 4 + [0, -1.0, "x"]), rng.random() < 0.3))
+                ops.append(("SElemChangeDur", s, pos, c, nm, rng.choice([dur_value(rng, own_sr(b, SR))] * 4 + [0, -1.0, "x"]), rng.random() < 0.3))
             elif k == "bad_add":
                 e, o = bad_element(rng, sh, chans, SR)
                 at = rng.choice([pos, pos, max([p for p in poss if isinstance(p, int)] + [0]) + 1])
@@ -311,19 +458,76 @@ def tail(rng, sh, extra_obs):
                 ops += [("SSetAmp", s, c, 0.0009765625), exp, ("SSetAmp", s, c, old),
                         ("SSetDelay", s, c, float(Fraction(rng.choice([2, 3, 8, 20])) / Fraction(SR)))]
                 extra_obs += [("OSSeqx", s, False), ("OSSeqx", s, True), ("OSForge", s, True, True, False)]
+            elif k == "seq_add":
+                others = [x for x in sh.S if sh.S[x]["pos"]]
+                t = rng.choice(others)
+                u = sh.fresh("S")
+                a1, a2 = (s, t) if rng.random() < 0.5 else (t, s)
+                ops.append(("SAdd", a1, a2, u))
+                sh.apply(("SAdd", a1, a2, u))
+                if rng.random() < 0.5:
+                    # re-declare a setting on the sum: the operands must not see it
+                    ops.append(("SSetFilter", u, c, rng.choice(["HP", "LP"]), rng.choice([1, 2]), SR * rng.choice([0.1, 0.3]), None))
+                extra_obs += [("OSDescr", u), ("OSLen", u), ("OSDescr", a1), ("OSDescr", a2), ("OSForge", a2, True, True, False)]
+            elif k == "handle_addbp":
+                # seq.element(pos).addBluePrint: a further channel (the entries then define different channel sets) or an
+                # existing one replaced, at the same or another rate - after the sequence was already checked / forged
+                nb = sh.fresh("B")
+                SR2 = rng.choice([SR, SR, SR * 2])
+                ops += [("BNew", nb), ("BInsert", nb, -1, "ramp", [0, 0.125], float(Fraction(8) / Fraction(SR2)), "h"),
+                        ("BSetSR", nb, SR2), ("OSCheck", s), ("SElemAddBp", s, pos, rng.choice([c, 97, "hh"]), nb)]
+                extra_obs += [("OSCheck", s), ("OSChannels", s), ("OSForge", s, False, False, False), ("OSDescr", s)]
+            elif k == "handle_bad_array":
+                # addArray with a marker array of another length than the waveform, on an existing channel: refused, and
+                # the channel keeps what it held
+                n = rng.choice([6, 10])
+                ops.append(("SElemAddArray", s, pos, c, [(0.125, n)], SR, [("m1", [(0, n - 1)])] if rng.random() < 0.8 else [("m1", [(1, n)])]))
+                extra_obs += [("OSCheck", s), ("OSPoints", s), ("OSDescr", s)]
+            elif k == "handle_flags":
+                ops.append(("SElemAddFlags", s, pos, c, [rng.choice([0, 1, 2, 3, 4, "", "H", "L", "T", "P", 7]) for _ in range(4)]))
+                extra_obs += [("OSSeqx", s, True), ("OSDescr", s)]
+            elif k == "set_filter":
+                ops.append(("SSetFilter", s, c, rng.choice(["HP", "LP"]), rng.choice([1, 2]), SR * rng.choice([0.1, 0.3]), None)
+                           if rng.random() < 0.6 else ("SSetFilter", s, c, rng.choice(["HP", "LP"]), 1, None, 1 / (SR * 0.25)))
+                extra_obs += [("OSForge", s, True, True, False)]
+            elif k == "tool_repeat":
+                # repeatAndVarySequence with list arguments of mismatched lengths (must be refused) or matching ones
+                nm = pick_name(rng, b)
+                q = sh.fresh("S")
+                ar = pick_arg(rng, b, nm)
+                shape = rng.choice(["ok", "iters_short", "iters_long", "names_short", "ragged"])
+                poss2, chs2, nms2, ars2 = [pos, pos], [c, c], [nm, nm], [ar, ar]
+                its = [[0, 0.125], [0.125, 0.25]]
+                if shape == "iters_short":
+                    its = its[:1]
+                elif shape == "iters_long":
+                    its = its + [[0, 0]]
+                elif shape == "names_short":
+                    nms2 = nms2[:1]
+                elif shape == "ragged":
+                    its = [[0, 0.125], [0.125]]
+                ops.append(("TRepeat", s, poss2, chs2, nms2, ars2, its, q))
+                extra_obs += [("OSLen", q), ("OSDescr", q)]
             elif k == "failed_forge":
                 # a segment of one sample (accepted by changeDuration, refused by the forger), forge, repair, forge
                 names = unique_names((b or {}).get("names", []))
                 if names and len((b or {}).get("durs", [])) == len(names):
                     i = rng.randrange(len(names))
                     if isinstance(b["durs"][i], (int, float)):
-                        ops += [("SElemChangeDur", s, pos, c, names[i], float(Fraction(1) / Fraction(SR)), False),
+                        ops += [("SElemChangeDur", s, pos, c, names[i], float(Fraction(5, 4) / Fraction(own_sr(b, SR))), False),
                                 ("OSForge", s, True, True, False), ("OSDescr", s),
                                 ("SElemChangeDur", s, pos, c, names[i], b["durs"][i], False)]
                         extra_obs += [("OSForge", s, True, True, False), ("OSPoints", s)]
             elif k == "delay":
                 ops.append(("SSetDelay", s, c, float(Fraction(rng.choice([0, 2, 3, 8, 20])) / Fraction(SR))))
                 extra_obs += [("OSSeqx", s, rng.random() < 0.5), ("OSForge", s, True, True, False)]
+        elif k == "el_bad_array":
+            e = rng.choice(els)
+            ch = rng.choice(list(sh.E[e]["chans"].values()))
+            n = rng.choice([6, 10])
+            SR = some_sr(rng, sh)
+            ops.append(("EAddArray", e, ch[1], [(0.125, n)], SR, [("m2", [(0, n + 1)])] if rng.random() < 0.8 else [("m2", [(1, n)])]))
+            extra_obs += [("OEPoints", e), ("OEDescr", e), ("OEArrays", e, False)]
         elif k in ("el_arg", "el_dur", "el_overwrite"):
             e = rng.choice(els)
             ch = rng.choice(list(sh.E[e]["chans"].values()))
@@ -333,7 +537,7 @@ def tail(rng, sh, extra_obs):
             if k == "el_arg":
                 ops.append(("EChangeArg", e, ch[1], nm, pick_arg(rng, b, nm), rng.choice(SMALL), rng.random() < 0.35))
             elif k == "el_dur":
-                ops.append(("EChangeDur", e, ch[1], nm, rng.choice([dur_value(rng, SR)] * 3 + [0, "x"]), rng.random() < 0.3))
+                ops.append(("EChangeDur", e, ch[1], nm, rng.choice([dur_value(rng, own_sr(b, SR))] * 3 + [0, "x"]), rng.random() < 0.3))
             else:
                 nb = sh.fresh("B")
                 SR2 = rng.choice([SR, SR * 2])
@@ -342,7 +546,7 @@ def tail(rng, sh, extra_obs):
         else:
             r = rng.choice(bps)
             b = sh.B[r]
-            SR = some_sr(rng, sh)
+            SR = own_sr(b, some_sr(rng, sh))
             nm = pick_name(rng, b)
             if k == "bp_arg":
                 ops.append(("BChangeArg", r, nm, pick_arg(rng, b, nm), rng.choice(SMALL), rng.random() < 0.35))
@@ -350,9 +554,29 @@ def tail(rng, sh, extra_obs):
                 ops.append(("BChangeDur", r, nm, rng.choice([dur_value(rng, SR)] * 3 + [0, "x"]), rng.random() < 0.3))
             elif k == "bp_insert":
                 ops.append(("BInsert", r, rng.choice([0, 1, -1]), "ramp", [0.125, 0], dur_value(rng, SR), rng.choice([None, nm.rstrip("0123456789") or "q"])))
+                sh.apply(ops[-1])
             else:
                 ops.append(("BRemove", r, nm))
+                sh.apply(ops[-1])
     return ops
+
+
+FORGING = ("OBForge", "OEArrays", "OSForge", "OSAwg", "OSSeqx", "OEPoints", "OSPoints")
+
+
+def forge_safe(prog, sh):
+    """May a follow-up forge what the program built?  Only when the program itself forges something (programs that
+    only describe - C05's histories - use durations of seconds at GSa/s rates) and no segment is longer than 200 000
+    samples at the largest rate around."""
+    if not any(op[0] in FORGING[:5] for op in prog):
+        return False
+    top = max(sh.srs) if sh.srs else 1
+    for op in prog:
+        if op[0] == "BInsert" and isinstance(op[5], (int, float)) and not isinstance(op[5], bool) and op[5] * top > 200000:
+            return False
+        if op[0] in ("BChangeDur", "EChangeDur") and isinstance(op[-2], (int, float)) and not isinstance(op[-2], bool) and op[-2] * top > 200000:
+            return False
+    return True
 
 
 def huge(prog):
@@ -366,41 +590,71 @@ def huge(prog):
 
 
 def make(rng, cases, n, max_prog=90):
-    """-> up to n follow-up cases built on randomly chosen base cases with moderate programs."""
+    """-> up to n follow-up cases built on randomly chosen base cases with moderate programs.  The kind of the first
+    appended call cycles through ALL_KINDS (stratified: every run contains every kind its programs admit)."""
     out = []
     pool = [c for c in cases if not c.get("corpus") and len(c["prog"]) <= max_prog and len(repr(c["prog"])) < 12000
             and not huge(c["prog"]) and not any(op[0] in ("HArrayArgs",) for op in c["prog"])]
     rng.shuffle(pool)
-    for c in pool:
-        if len(out) >= n:
-            break
+    if not pool:
+        return out
+    kinds = list(ALL_KINDS)
+    rng.shuffle(kinds)
+    used = {k: 0 for k in kinds}
+    tries = 0
+    while len(out) < n and tries < 6 * n:
+        c = pool[tries % len(pool)]
+        tries += 1
         prog = [tuple(op) for op in c["prog"]]
         obs = [op for op in prog if op[0].startswith("O")]
         if not obs:
             continue
         if len(obs) > 10:
-            obs = sorted(rng.sample(range(len(obs)), 10))
-            obs = [o for i, o in enumerate([op for op in prog if op[0].startswith("O")]) if i in obs]
+            keep = sorted(rng.sample(range(len(obs)), 10))
+            obs = [o for i, o in enumerate(obs) if i in keep]
         sh = Shape(prog)
+        if sh.srs and max(sh.srs) > 64 * min(sh.srs):
+            continue          # programs mixing very different rates: a few samples at one rate are millions at another
+        del ALL_SRS[:]
+        ALL_SRS.extend(set(sh.srs) | {x * 2 for x in sh.srs})
         new = list(prog)
+        safe = forge_safe(prog, sh)
+        base_regs = {"B": max(list(sh.B) + [-1]) + 1, "E": max(list(sh.E) + [-1]) + 1, "S": max(list(sh.S) + [-1]) + 1}
         if sh.S and rng.random() < 0.5:
             # element handles fetched before the program's first observation and kept: later edits through them happen
             # without any further `element()` call
             first = next(i for i, op in enumerate(new) if op[0].startswith("O"))
             new.insert(first, ("HHoldHandles",))
         added = 0
+        has_s = any(v["pos"] for v in sh.S.values())
+        has_e = any(v["chans"] for v in sh.E.values())
+        has_b = any(v["names"] for v in sh.B.values())
+        app = [k for k in kinds if (k in SEQ_KINDS and has_s) or (k in EL_KINDS and has_e) or (k in BP_KINDS and has_b)]
+        if not app:
+            continue
+        want = min(app, key=lambda k: used[k])          # the applicable kind used least so far
+        used[want] += 1
         for _round in range(rng.randint(1, 2)):
             extra_obs = []
-            t = tail(rng, sh, extra_obs)
+            t = tail(rng, sh, extra_obs, first=_round == 0, force=want if _round == 0 else None)
             if not t:
                 break
             added += len(t)
             for op in t:
-                if op[0] in ("BNew", "ENew", "SNew", "BInsert", "EAddBp", "SAddElement", "SAddSub", "ECopy", "SCopy", "BSetSR", "SSetSR"):
+                if op[0] in ("BNew", "ENew", "SNew", "EAddBp", "SAddElement", "SAddSub", "ECopy", "SCopy", "BSetSR", "SSetSR"):
                     sh.apply(op)
+            if not safe:
+                # nothing of this program may be forged: keep only the describing observations, also inside the tail
+                # (objects the follow-up builds itself sit in fresh registers and stay forgeable)
+                def own(o):
+                    return o[1] >= base_regs[o[0][1]]
+                extra_obs = [o for o in extra_obs if o[0] not in FORGING or own(o)]
+                t = [o for o in t if o[0] not in FORGING or own(o)]
+                t = [o for o in t if not (o[0] in ("SAddElement",) and o[1] >= base_regs["S"] and o[3] < base_regs["E"])]
             obs = obs + [o for o in extra_obs if o not in obs]
             new += t + obs
         if not added:
             continue
-        out.append({"prog": new, "kind": "followup", "followup": True, "base_kind": c.get("kind"), "n_base": len(prog)})
+        out.append({"prog": new, "kind": "followup", "followup": True, "base_kind": c.get("kind"), "n_base": len(prog),
+                    "first_kind": want})
     return out
